@@ -301,7 +301,7 @@ namespace vf
             o << "}";
         };
         o << "{\"property\":\"" << spec.property << "\",\"target\":\"" << spec.target
-          << "\",\"config\":\"" << config << "\",";
+          << "\",\"config\":\"" << config << "\",\"rule\":\"" << json_escape(spec.rule) << "\",";
         o << "\"cases\":" << s.cases << ",\"nontrivial\":" << s.nontrivial
           << ",\"distinct_nontrivial\":" << s.distinct_nontrivial.size()
           << ",\"distinct_cases\":" << s.distinct_all.size() << ",\"total_ops\":" << s.total_ops
